@@ -13,10 +13,12 @@ Each entry: class name -> dict(
 )
 """
 
-G4 = [0.3, 0.7, 1.3, 2.1]          # generic positive values
-G4b = [0.4, 0.9, 1.7, 2.6]
-G4c = [0.25, 0.6, 1.1, 1.9]
-G4d = [0.35, 0.8, 1.5, 2.3]
+# generic positive values + the unit value: a numeric grid of generic points decides polynomial identities, but misses
+# degenerate coincidences such as a spurious factor (T - 1) - and 1.0 is the most common "special" parameter value
+G4 = [0.3, 0.7, 1.3, 2.1, 1.0]
+G4b = [0.4, 0.9, 1.7, 2.6, 1.0]
+G4c = [0.25, 0.6, 1.1, 1.9, 1.0]
+G4d = [0.35, 0.8, 1.5, 2.3, 1.0]
 FAR = dict(lower=-1e3, upper=1e3)
 
 
